@@ -5,8 +5,13 @@
 From Coq Require Import List Bool.
 Import ListNotations.
 
-Inductive src := SDataset | SSample | SSlow.
-Inductive tr := TNone | TJs | TJsPar | TPanic | TEmpty.
+Inductive src := SDataset | SSample | SSlow | SHttp | SHttpMid.
+(* SHttp / SHttpMid: HttpDatasetSource on a remote data layer; when the job is killed the remote is stalling before the
+   response (SHttp) or in the middle of the body (SHttpMid) *)
+Definition killable (s : src) : bool := match s with SSlow | SHttp | SHttpMid => true | _ => false end.
+Inductive tr := TNone | TJs | TJsPar | TPanic | TEmpty | TNoCode.
+(* TNoCode: a transform block {"Type": "JavascriptTransform"} without Code: parseTransform yields no transform at all *)
+Definition has_transform (t : tr) : bool := match t with TNone | TNoCode => false | _ => true end.
 (* TJsPar: identity JS transform with Parallelism 10 on pages of 15 entities (the partition arithmetic of C10);
    TEmpty: a filtering JS transform that returns no entity at all (the sink is then called with an empty batch) *)
 (* TPanic: a transform stage that panics in the goroutine of the run (the driver injects the panic into the
@@ -66,7 +71,12 @@ Definition sync (v : jvariant) (c : cfg) : sres * bool (* wrappedSink.lastError 
     match c_jt c, c_snk c with
     | JFull, KMissing => (SErr, false)                       (* sink.startFullSync fails, before the source is read *)
     | _, _ =>
-      if c_kill c then (SInterrupt, false) else
+      if c_kill c
+      then (match c_src c with
+            | SHttp | SHttpMid => (SErr, false)   (* the cancelled request fails: "context canceled", an ordinary error *)
+            | _ => (SInterrupt, false)
+            end)
+      else
       (* transform stage of the first page *)
       if (match c_tr c, c_jt c with
           | TPanic, _ => true
@@ -91,10 +101,7 @@ Definition sync (v : jvariant) (c : cfg) : sres * bool (* wrappedSink.lastError 
         | Some r => (r, lasterr)
         | None =>
           (* transform.EndStoreContext after the last page *)
-          match c_tr c with
-          | TNone => (SOk, lasterr)
-          | _ => if wrapped && negb (fix_endctx v) then (SDiverge, lasterr) else (SOk, lasterr)
-          end
+          if has_transform (c_tr c) && wrapped && negb (fix_endctx v) then (SDiverge, lasterr) else (SOk, lasterr)
         end
     end.
 
@@ -141,8 +148,8 @@ Definition run_job (v : jvariant) (c : cfg) : out :=
     end.
 
 (** the lattice *)
-Definition all_src := [SDataset; SSample; SSlow].
-Definition all_tr := [TNone; TJs; TJsPar; TPanic; TEmpty].
+Definition all_src := [SDataset; SSample; SSlow; SHttp; SHttpMid].
+Definition all_tr := [TNone; TJs; TJsPar; TPanic; TEmpty; TNoCode].
 Definition all_snk := [KDevNull; KDataset; KMissing].
 Definition all_trig := [GCron; GOnChange].
 Definition all_jt := [JIncr; JFull].
@@ -152,7 +159,7 @@ Definition all_cfgs : list cfg :=
   flat_map (fun s => flat_map (fun t => flat_map (fun k => flat_map (fun g => flat_map (fun j =>
   flat_map (fun h => map (fun kl =>
     {| c_src := s; c_tr := t; c_snk := k; c_trig := g; c_jt := j; c_h := h; c_kill := kl |})
-    (match s with SSlow => [false; true] | _ => [false] end))
+    (if killable s then [false; true] else [false]))
   all_h) all_jt) all_trig) all_snk) all_tr) all_src.
 
 (** the property on one configuration: accepted => recorded outcome, slot released, process alive *)
@@ -174,8 +181,10 @@ Definition dies_current (c : cfg) : bool :=
   accepted jcurrent c
   && if (match c_jt c, c_snk c with JFull, KMissing => true | _, _ => false end)
      then nilrerun
-     else negb (c_kill c)
-          && ((match c_tr c, c_jt c with TPanic, _ => true | TJsPar, JIncr => true | _, _ => false end)
+     else if c_kill c
+     then (match c_src c with SHttp | SHttpMid => nilrerun | _ => false end)
+     else ((match c_tr c, c_jt c with TPanic, _ => true | TJsPar, JIncr => true | _, _ => false end)
               || (has_log jcurrent c
                   && ((match c_snk c, c_trig c with KMissing, GOnChange => negb tempty || nilrerun | _, _ => false end)
-                      || (match c_tr c with TNone => false | _ => true end)))).
+                      || has_transform (c_tr c)))).
+
